@@ -112,7 +112,7 @@ def _verify(dirpath, expected):
     return seen
 
 
-def get_facts(config="workspace", repo=None, log=sys.stderr):
+def get_facts(config="workspace", repo=None, log=sys.stderr, slot=None):
     """Return (facts_dir, meta) for the current working tree of `repo`, extracting if needed."""
     repo = repo or REPO
     cargo_args, expected = CONFIGS[config]
@@ -122,7 +122,7 @@ def get_facts(config="workspace", repo=None, log=sys.stderr):
     facts_root = os.path.join(CACHE, "facts")
     os.makedirs(facts_root, exist_ok=True)
     final = os.path.join(facts_root, "%s-%s" % (config, key))
-    lock_path = os.path.join(CACHE, "lock")
+    lock_path = os.path.join(CACHE, "lock" if slot is None else "lock-slot%s" % slot)
     with open(lock_path, "w") as lock:
         fcntl.flock(lock, fcntl.LOCK_EX)
         if os.path.isdir(final):
@@ -140,6 +140,8 @@ def get_facts(config="workspace", repo=None, log=sys.stderr):
         os.makedirs(tmp)
         # key the dependency cache by repo location so scratch copies do not thrash it
         tkey = hashlib.sha256(os.path.abspath(repo).encode()).hexdigest()[:8] if os.path.abspath(repo) != "/repo" else "repo"
+        if slot is not None:
+            tkey = "slot%s" % slot   # scratch copies share a small pool of dependency caches
         target = os.path.join(CACHE, "target-%s" % tkey)
         os.makedirs(target, exist_ok=True)
         # cargo's freshness cache would skip the wrapper: force the members to be re-checked
